@@ -39,6 +39,10 @@ type Opts struct {
 	Observer      tsdb.FileStoreObserver
 }
 
+// MaxValuesPerRead bounds what one cursor or iterator may return: far above
+// anything a simulated history holds (tens of thousands of points).
+const MaxValuesPerRead = 1 << 20
+
 // Sim is a store under simulation.
 type Sim struct {
 	Root   string
@@ -428,6 +432,8 @@ func add(obs Observed, key, field string, tv model.TV) {
 }
 
 func drain(itr query.Iterator, m, f string, obs Observed) error {
+	nread := 0
+	tooMany := fmt.Errorf("iterator over %s %s returned more than %d points and does not end", m, f, MaxValuesPerRead)
 	switch it := itr.(type) {
 	case query.FloatIterator:
 		for {
@@ -437,6 +443,9 @@ func drain(itr query.Iterator, m, f string, obs Observed) error {
 			}
 			if p == nil {
 				return nil
+			}
+			if nread++; nread > MaxValuesPerRead {
+				return tooMany
 			}
 			if p.Nil {
 				continue
@@ -452,6 +461,9 @@ func drain(itr query.Iterator, m, f string, obs Observed) error {
 			if p == nil {
 				return nil
 			}
+			if nread++; nread > MaxValuesPerRead {
+				return tooMany
+			}
 			if p.Nil {
 				continue
 			}
@@ -465,6 +477,9 @@ func drain(itr query.Iterator, m, f string, obs Observed) error {
 			}
 			if p == nil {
 				return nil
+			}
+			if nread++; nread > MaxValuesPerRead {
+				return tooMany
 			}
 			if p.Nil {
 				continue
@@ -480,6 +495,9 @@ func drain(itr query.Iterator, m, f string, obs Observed) error {
 			if p == nil {
 				return nil
 			}
+			if nread++; nread > MaxValuesPerRead {
+				return tooMany
+			}
 			if p.Nil {
 				continue
 			}
@@ -493,6 +511,9 @@ func drain(itr query.Iterator, m, f string, obs Observed) error {
 			}
 			if p == nil {
 				return nil
+			}
+			if nread++; nread > MaxValuesPerRead {
+				return tooMany
 			}
 			if p.Nil {
 				continue
@@ -539,33 +560,37 @@ func (s *Sim) ReadCursors(id uint64, ro ReadOpts, what []SeriesField) (Observed,
 			continue
 		}
 		key := model.SeriesKey(w.M, w.Tags)
+		// a cursor that never runs dry (e.g. timestamps that do not advance)
+		// is a read that never returns: bounded here, reported by the caller
+		nread := 0
+		tooMany := func(n int) bool { nread += n; return nread > MaxValuesPerRead }
 		switch c := cur.(type) {
 		case tsdb.FloatArrayCursor:
-			for a := c.Next(); a.Len() > 0; a = c.Next() {
+			for a := c.Next(); a.Len() > 0 && !tooMany(a.Len()); a = c.Next() {
 				for i := range a.Timestamps {
 					add(obs, key, w.Field, model.TV{T: a.Timestamps[i], V: model.Value{K: model.Float, F: a.Values[i]}})
 				}
 			}
 		case tsdb.IntegerArrayCursor:
-			for a := c.Next(); a.Len() > 0; a = c.Next() {
+			for a := c.Next(); a.Len() > 0 && !tooMany(a.Len()); a = c.Next() {
 				for i := range a.Timestamps {
 					add(obs, key, w.Field, model.TV{T: a.Timestamps[i], V: model.Value{K: model.Integer, I: a.Values[i]}})
 				}
 			}
 		case tsdb.UnsignedArrayCursor:
-			for a := c.Next(); a.Len() > 0; a = c.Next() {
+			for a := c.Next(); a.Len() > 0 && !tooMany(a.Len()); a = c.Next() {
 				for i := range a.Timestamps {
 					add(obs, key, w.Field, model.TV{T: a.Timestamps[i], V: model.Value{K: model.Unsigned, U: a.Values[i]}})
 				}
 			}
 		case tsdb.StringArrayCursor:
-			for a := c.Next(); a.Len() > 0; a = c.Next() {
+			for a := c.Next(); a.Len() > 0 && !tooMany(a.Len()); a = c.Next() {
 				for i := range a.Timestamps {
 					add(obs, key, w.Field, model.TV{T: a.Timestamps[i], V: model.Value{K: model.String, S: a.Values[i]}})
 				}
 			}
 		case tsdb.BooleanArrayCursor:
-			for a := c.Next(); a.Len() > 0; a = c.Next() {
+			for a := c.Next(); a.Len() > 0 && !tooMany(a.Len()); a = c.Next() {
 				for i := range a.Timestamps {
 					add(obs, key, w.Field, model.TV{T: a.Timestamps[i], V: model.Value{K: model.Boolean, B: a.Values[i]}})
 				}
@@ -576,6 +601,9 @@ func (s *Sim) ReadCursors(id uint64, ro ReadOpts, what []SeriesField) (Observed,
 		}
 		cerr := cur.Err()
 		cur.Close()
+		if nread > MaxValuesPerRead {
+			return nil, fmt.Errorf("cursor %s %s returned more than %d values and does not end", key, w.Field, MaxValuesPerRead)
+		}
 		if cerr != nil {
 			return nil, fmt.Errorf("cursor %s %s: %w", key, w.Field, cerr)
 		}
